@@ -141,6 +141,20 @@ def check_case(case, ctr):
                 return V
     env.SeamSet.choice = 0
     ctr['hit_seam'] += env.SeamSet.hits - hits0
+    # the seeds are those passed when the call is made (caller reuses its scratch list)
+    if k >= 2 and not V:
+        for i in range(k):
+            scratch = [al[i], al[(i + 1) % k]]
+            gu, gd = lat.upset_union(scratch), lat.downset_union(scratch)
+            scratch.clear()
+            scratch.append(al[ref.top])
+            ctr['calls'] += 2
+            if not judge(list(gu), ups[i] | ups[(i + 1) % k], 'index', 'upset_union',
+                         seeds=[i, (i + 1) % k], note='argument list changed after the call'):
+                return V
+            if not judge(list(gd), downs[i] | downs[(i + 1) % k], 'dindex', 'downset_union',
+                         seeds=[i, (i + 1) % k], note='argument list changed after the call'):
+                return V
     return V
 
 
